@@ -479,7 +479,12 @@ def analyse(ctx, exe, c, rec):
         if P["L0"] is None and end["status"] != "timeout":
             issues.append(("a", "base-load-died", "the process died while loading the unmodified base database: " + end["stderr"][:300]))
             return dict(status="judged", issues=issues, info=info)
-        return dict(status="notjudged:base-load", issues=[], info=info)
+        # loading the unmodified shipped base database on a new instance is itself a valid call: it must return, and return 0
+        if P["L0"] is None:
+            issues.append(("hang", "hang:base-database-load", f"LoadDatabase of the unmodified base database {c['db']} on a new instance did not return within the time limit"))
+        else:
+            issues.append(("a", "base-database-load-failed", f"LoadDatabase of the unmodified base database {c['db']} on a new instance returned {P['L0'][0]} / exception {P['L0'][1]}"))
+        return dict(status="judged", issues=issues, info=info)
     if any(r != 0 or e != "-" for r, e in P["pre"]) or len(P["pre"]) < len(c["pre"]):
         return dict(status="notjudged:history-call-failed", issues=[], info=info)
     # ---- process-level outcome
@@ -927,6 +932,11 @@ def run(ctx):
                 for st_ in inf.get("unexplained_timeout_sites", []):
                     hang_sites[st_] = hang_sites.get(st_, 0) + 1
             for iss in a["issues"]:
+                if iss[1] == "hang:base-database-load":
+                    rec2 = run_one(plain, c, timeout)             # confirm alone on the plain build: an overloaded machine is not a hang
+                    if rec2 is not None and any(ln.startswith("L0 ") for ln in rec2["lines"]):
+                        stats["base_load_timeouts_not_confirmed"] = stats.get("base_load_timeouts_not_confirmed", 0) + 1
+                        continue
                 cls_count[iss[0]] = cls_count.get(iss[0], 0) + 1
                 report(ctx, exe, c, iss, timeout, seen, withheld=withheld)
         ctx.log(f"{evals}/{len(cases)} cases, {len(seen)} distinct issue keys, {len(ctx.violations)} violations, {len(withheld)} withheld")
